@@ -41,7 +41,7 @@ ASSUMPTIONS = [
 
 
 def floors(tier):
-    return {"int-for-float": 300, "rel=B": 1500, "rel=A": 1500, "bf=0": 1000, "bf=1": 1000, "scaled": 1500,
+    return {"hp-keyword": 100, "as-text": 20, "int-for-float": 300, "rel=B": 1500, "rel=A": 1500, "bf=0": 1000, "bf=1": 1000, "scaled": 1500,
             "sweep": 5000, "count>0": 300, "kwargs-permuted": 300, "single-attribute": 5000}
 
 
@@ -111,6 +111,8 @@ def required_kw(t):
 def check(case) -> core.Out:
     import pyubx2
 
+    if case.get("kind") == "leafwise":
+        return check_leafwise(case)
     mode, clsid, defname, bf, nodes = (case["mode"], bytes(case["clsid"]), case["defname"],
                                        case["bf"], case["nodes"])
     subset = case.get("subset")  # None = everything (relation B)
@@ -256,6 +258,66 @@ def check(case) -> core.Out:
     return out
 
 
+def check_leafwise(case) -> core.Out:
+    """Keywords named after the *definition's* leaves, with the model's value for each
+    (not what the parser reports): the high-precision parts `_HP<name>` that the parser
+    folds into <name>, and character attributes given as text.  The payload must be the
+    instance's encoding."""
+    import pyubx2
+
+    mode, clsid, defname, nodes = case["mode"], bytes(case["clsid"]), case["defname"], case["nodes"]
+    t = C.find_target(mode, clsid, defname)
+    out = core.Out(classes=["leafwise", f"mode={C.MODES[mode]}"] + (["as-text"] if case.get("as_text") else []))
+    key = f"{PROP}|{C.MODES[mode]}|{defname}|"
+    if t is None:
+        out.classes = ["skipped:definition-gone"]
+        return out
+    want = G.encode(nodes)
+    if not t.selects(want):
+        out.classes = ["skipped:not-selecting"]
+        return out
+    kw = {}
+
+    def walk(ns, idx):
+        sfx = G.suffix(idx)
+        for nd in ns:
+            if nd[0] == "f":
+                v = codec.value_of(nd[2], nd[4]) if nd[3] is None else nd[4] * nd[3]
+                if case.get("as_text") and nd[2] != "CH" and nd[2][0] == "C" and isinstance(v, bytes):
+                    try:
+                        v = v.decode("utf-8")
+                    except UnicodeDecodeError:
+                        pass
+                kw[nd[1] + sfx] = v
+            elif nd[0] == "b":
+                for fname, _ft, fval in nd[3]:
+                    if not fname.startswith("reserved"):
+                        kw[fname + sfx] = fval
+            else:
+                for i, it in enumerate(nd[2]):
+                    walk(it, idx + (i + 1,))
+
+    walk(nodes, ())
+    _must, must_not = required_kw(t)
+    for n_ in must_not:
+        kw.pop(n_, None)
+    out.nontrivial = any(want)
+    out.dig = core.digest((mode, clsid, want, bool(case.get("as_text"))))
+    out.sample = {"mode": C.MODES[mode], "definition": defname, "keywords": {k: kw[k] for k in list(kw)[:6]}}
+    if any(k.startswith("_HP") and v for k, v in kw.items()):
+        out.classes.append("hp-keyword")
+    try:
+        got = pyubx2.UBXMessage(clsid[0:1], clsid[1:2], mode, **kw).payload or b""
+    except Exception as err:  # noqa
+        out.viol.append((key + f"leafwise:raises:{type(err).__name__}", f"{defname} from {str(kw)[:120]}: {err!r}"[:300]))
+        return out
+    if got != want:
+        fld = C.base_name(G.first_diff_field(nodes, want, got))
+        out.viol.append((key + f"field:{fld}", f"field {fld}: built {got[:40].hex()} != expected {want[:40].hex()} "
+                                               f"(keywords {str({k: v for k, v in kw.items() if C.base_name(k) == fld})[:120]})"))
+    return out
+
+
 def template_for(t):
     """All-zero instance with every counted group repeated once and the
     variant discriminators set as the selection rules require."""
@@ -361,6 +423,26 @@ def run_shard(spec, ctx, acc):
                                     max_payload=1200 if tier == "quick" else 8000, big_counts=False)
             inst = inst.filter(not_nan_floats)
             base = {"kind": "kw", "mode": t.mode, "clsid": t.clsid, "defname": t.defname}
+            # keywords named after the definition's own leaves (incl. _HP parts), model values
+            lw = inst.map(lambda nodes: dict(base, kind="leafwise", nodes=nodes))
+            if has_hp(t.defn):
+                core.hyp_search(acc, lw, check, seed=core.derive(ctx["seed"], PROP, "LW", t.label),
+                                max_examples=40 if tier == "quick" else 600, known=known, rounds=2)
+            # character attributes given as text whose UTF-8 encoding fills the field exactly
+            tmpl_c = template_for(t)
+            for nd_ in [x for x in tmpl_c if x[0] == "f" and x[2] != "CH" and x[2][0] == "C"]:
+                w = codec.tsize(nd_[2])
+                for txt in ("a" * w, "\u00e9" * (w // 2) + "a" * (w % 2), "M\u00fcller \u00e9t\u00e9"[:w].ljust(w, "x")
+                            if len("M\u00fcller \u00e9t\u00e9"[:w].encode()) <= w else "a" * w,
+                            "\u20ac" * (w // 3) + "a" * (w % 3), "\u00ff" * (w // 2) + "b" * (w % 2)):
+                    raw_ = txt.encode("utf-8")
+                    if len(raw_) != w:
+                        raw_ = raw_[:w].decode("utf-8", "ignore").encode("utf-8").ljust(w, b"z")
+                    nd_[4] = raw_
+                    case = dict(base, kind="leafwise", nodes=core.jdec(core.jenc(tmpl_c)), as_text=True)
+                    o = core.checked(check, case)
+                    core.handle(acc, o, case, known)
+                nd_[4] = bytes(w)
             # systematic probe: every scaled field alone, at its boundary raws
             if not has_hp(t.defn):
                 tmpl = template_for(t)
